@@ -45,6 +45,19 @@ var c26Pieces = []piece{
 	{"binop-eol-xor", []seg{c("x = x ^\n\t6\n")}},
 	{"binop-eol-gt", []seg{c("b = x >\n\t6\n")}},
 	{"binop-eol-slash", []seg{c("x = x /\n\t2\n")}},
+	{"slash-then-paren", []seg{c("x = x/(\n\t2)\n")}},
+	{"slash-then-bracket", []seg{c("x = x/a[\n\t0]\n")}},
+	{"slash-then-rune", []seg{c("x = x /"), r("'a'"), c("\n")}},
+	{"slash-then-rune-brace", []seg{c("x = x /"), r("'{'"), c("\n")}},
+	{"quoeq-eol", []seg{c("x /=\n\t2\n")}},
+	{"selector-dot-eol", []seg{c("x = st.\n\tf.\n\tg\n")}},
+	{"method-chain-dot-eol", []seg{c("v := b.\n\tWithA().\n\tWithB(1)\n")}},
+	{"float-dot-eol", []seg{c("fl := 1.\n")}},
+	{"comment-stars", []seg{k("/** doc { ( **/"), c("\n")}},
+	{"comment-stars-multi", []seg{k("/***\n * text [\n ***/"), c("\n")}},
+	{"comment-only-stars", []seg{k("/***/"), c("\n")}},
+	{"string-with-tab", []seg{c("s = "), s("\"a\tb { (\""), c("\n")}},
+	{"rune-tab", []seg{c("c := "), r("'\t'"), c("\n")}},
 	{"binop-eol-shl", []seg{c("x = x <<\n\t2\n")}},
 	{"binop-eol-andand", []seg{c("b = b &&\n\tb\n")}},
 	{"binop-eol-oror", []seg{c("b = b ||\n\tb\n")}},
